@@ -166,9 +166,11 @@ func c19Exec(r *Run, line string) string {
 			// byte prefix of abc_1-12) cannot both be registered (CheckIfRollappExists refuses the second
 			// name), so that case is a note (theorem sequencers_by_rollapp_scan_exact_counterexample);
 			// for ids with different names it is a violation.
-			na, oka := c19RollappName(string(unhex(f[1])))
-			nb, okb := c19RollappName(string(unhex(f[2])))
-			if oka && okb && na == nb {
+			// (the name is what precedes the first '_'; an id that NewChainID refuses — e.g. longer than 50
+			// bytes — cannot be registered at all)
+			na := strings.SplitN(string(unhex(f[1])), "_", 2)[0]
+			nb := strings.SplitN(string(unhex(f[2])), "_", 2)[0]
+			if na == nb {
 				r.Hit("seqscan-same-name-ids-scan-not-exact(unregistrable pair)")
 			} else {
 				r.Violate("C19/prefix_scan/sequencers-by-rollapp", fmt.Sprintf("scan for %q returns key of %q", unhex(f[1]), unhex(f[2])), line)
